@@ -32,7 +32,7 @@ def jobs(tier):
     for lo in range(1, maxbits + 1, step):
         js.append(("job_randrange", dict(_name="unbiased_randrange width bits %d..%d, <=%d draws" % (lo, min(maxbits, lo + step - 1), D),
                                          lo=lo, hi=min(maxbits, lo + step - 1), draws=D)))
-    for g in ("I1024", "I2048", "I3072"):
+    for g in ("I1024", "I2048", "I3072", "toy11", "toy257", "toy1019", "sp61"):
         js.append(("job_group_scalar", dict(_name="IntegerGroup.random_scalar %s, <=%d draws" % (g, D), gname=g, draws=D)))
     js.append(("job_ed_scalar", dict(_name="ed25519 random_scalar")))
     for cls in "ABS":
@@ -88,7 +88,11 @@ def job_randrange(J, lo, hi, draws):
 
 def job_group_scalar(J, gname, draws):
     G = loader.MODS["groups"]
-    g = getattr(G, gname)
+    if hasattr(G, gname):
+        g = getattr(G, gname)
+    else:
+        from checks.realtier import custom_world
+        g = custom_world(gname)[0]
     q = g.q
     bits, nb = q.bit_length(), (q.bit_length() + 7) // 8
     J.bounds.update(group=gname, q_bits=bits, max_draws=draws)
@@ -166,6 +170,8 @@ def job_discipline(J, cls):
             continue
         w = r.ctx.data["w"]
         log = dict((k, (a, b)) for k, a, b in w["log"])
+        J.claim(r, "os.urandom is never called when an entropy function is supplied (even a falsy callable object)",
+                len(r.ctx.table("urandom")) == 0, cex=cex, oracle="discipline")
         J.claim(r, "constructor draws no entropy", log["constructor"] == (0, 0), cex=cex, oracle="discipline")
         J.claim(r, "start() draws exactly once, through group.random_scalar", log["start"] == (1, 1), cex=cex, oracle="discipline")
         J.claim(r, "serialize() draws none", log["serialize"] == (1, 1), cex=cex, oracle="discipline")
@@ -199,6 +205,7 @@ def oracle_randrange(start, width, chunks):
     bits = width.bit_length()
     for v in (width - 1, width, (1 << bits) - 1, (1 << (8 * nb)) - 1, 0):
         tests.append([(v % (1 << (8 * nb))).to_bytes(nb, "big"), bytes(nb)])
+        tests.append([(v % (1 << (8 * nb))).to_bytes(nb, "big"), b"\x00" + b"\x01" * (nb - 1), bytes(nb)])
     for ch in tests:
         ch = [(c + bytes(nb))[:nb] for c in ch] + [bytes(nb)]
         reqs = []
@@ -223,7 +230,8 @@ def oracle_randrange(start, width, chunks):
 
 def oracle_group_scalar(group, chunks):
     from spake2 import groups
-    g = getattr(groups, group)
+    from checks import common as C
+    g = getattr(groups, group) if hasattr(groups, group) else C.toy_group(group)
     nb = (g.q.bit_length() + 7) // 8
     tests = [chunks] + [[(v % (1 << (8 * nb))).to_bytes(nb, "big")] for v in (g.q - 1, g.q, g.q + 1, (1 << (8 * nb)) - 1, 0)]
     for ch in tests:
@@ -273,9 +281,15 @@ def oracle_discipline(cls):
         params = C.params_by_name(nm)
         calls = []
 
-        def ent(n):
-            calls.append(n)
-            return bytes(n - 1) + b"\x05"
+        class Pool(object):
+            """a callable entropy source that is falsy (an empty buffered pool)"""
+            def __len__(self):
+                return 0
+
+            def __call__(self, n):
+                calls.append(n)
+                return bytes(n - 1) + b"\x05"
+        ent = Pool()
         real_urandom = os.urandom
         leaked = []
         os.urandom = lambda n: (leaked.append(n), real_urandom(n))[1]
